@@ -1041,6 +1041,11 @@ def frontLine (d : QtyDef) : String :=
     s!" | {Text.toString u.ident},{hexOfText u.name},{hexOfText u.symbol},{o u.pfx},{match u.scale with | some l => canonLit l | none => "-"},{oh u.doc}")
   let consts := ",".intercalate (d.units.map (fun u => s!"{Text.toString u.constName}={Text.toString u.ident}"))
   let variants := ",".intercalate (d.units.map (fun u => Text.toString u.ident))
+  -- the only serde wiring of the generated code: the derives on the unit enum and on the quantity struct, under
+  -- the feature `serde` of the crate that contains the definition; no attribute on a field or a variant
+  let deriveAttr := "cfg_attr(feature=\"serde\",derive(::serde::Deserialize,::serde::Serialize))"
+  let qn := Text.toString d.name
+  let serdeAttrs := ";".intercalate ([s!"{qn}:{deriveAttr}", s!"{qn}Unit:{deriveAttr}"].toArray.qsort (· < ·)).toList
   -- what the GENERATED accessors `name()`, `symbol()`, `si_prefix()`, `scale()` answer per variant
   -- (`scale()` exists only for types with a reference unit)
   let arms := " | ".intercalate (d.units.map (fun u =>
@@ -1048,7 +1053,7 @@ def frontLine (d : QtyDef) : String :=
       | some _ => (match u.scale with | some l => "l:" ++ canonLit l | none => "missing")
       | none => "-"
     s!"{Text.toString u.ident},s:{hexOfText u.name},s:{hexOfText u.symbol},p:{o u.pfx},{sc}"))
-  s!"ok {Text.toString d.name} ref={o d.refIdent} derived={der}{String.join units} # {"; ".intercalate (frontImpls d)} # consts {consts} # variants {variants} # arms {arms} # items "
+  s!"ok {Text.toString d.name} ref={o d.refIdent} derived={der}{String.join units} # {"; ".intercalate (frontImpls d)} # consts {consts} # variants {variants} # arms {arms} # items  # serde {serdeAttrs}"
 
 
 /-- the amount text `Quantity::fmt` builds in the binary64 configuration: `Display` (with the optional
